@@ -592,7 +592,7 @@ def ref_leaf(entry, l):
     root = fnmatch.fnmatchcase(entry.name, sel[0]) or fnmatch.fnmatchcase(entry.type, sel[0])
     if len(sel) == 1:
         return (op is None and root), []
-    if sel[0] == "Meta" or len(sel) != 3 or not isinstance(entry, ml.LLUDPMessageLogEntry):
+    if sel[0] == "Meta" or len(sel) not in (3, 4) or not isinstance(entry, ml.LLUDPMessageLogEntry):
         return None
     if not root:
         return False, []
@@ -616,6 +616,36 @@ def ref_leaf(entry, l):
         for num, block in enumerate(blocks):
             for vname, v in block.vars.items():
                 if not fnmatch.fnmatchcase(vname, sel[2]):
+                    continue
+                if len(sel) == 4:
+                    # Msg.Block.Var.Subfield: the variable is selected iff SOME unpacked subfield whose name matches
+                    # satisfies the comparison (any position in the unpacked dict)
+                    from hippolyzer.lib.base.datatypes import TaggedUnion
+                    try:
+                        d = block.deserialize_var(vname)
+                    except KeyError:
+                        continue
+                    if isinstance(d, TaggedUnion):
+                        d = d.value
+                    if not isinstance(d, dict):
+                        continue
+                    hit = False
+                    for sk, sv in d.items():
+                        if not fnmatch.fnmatchcase(str(sk), sel[3]):
+                            continue
+                        if op is None:
+                            hit = True
+                            break
+                        if not isinstance(sv, (int, float, bytes, str, type(None), tuple, TupleCoord)):
+                            sv = str(sv)
+                        try:
+                            if ops[op](sv, expected):
+                                hit = True
+                                break
+                        except (TypeError, AttributeError, ValueError):
+                            pass
+                    if hit:
+                        keys.append((msg.name, bname, num, vname))
                     continue
                 if op is None:
                     keys.append((msg.name, bname, num, vname))
@@ -890,10 +920,37 @@ FIXED_CASES = [
 ]
 
 
+def subfield_family():
+    """4-part selectors on the parsed ObjectUpdate fixture whose last part selects SEVERAL unpacked subfields of one variable
+    (ObjectData.ObjectData = Position/Velocity/Acceleration/Rotation/AngularVelocity, PSBlock = PSys/PData): for every
+    pattern x operator x value, so that the deciding subfield is the first, a middle, the last or none of the selected ones."""
+    t3 = lambda a, b, c: ["lit", ["tuple", [["int", a], ["int", b], ["int", c]]]]
+    vals = [t3(0, 0, 0), t3(88, 41, 25), t3(90, 43, 27), ["lit", ["tuple", [["int", 0], ["int", 0], ["int", 0], ["int", 1]]]],
+            ["lit", ["int", 0]], ["lit", ["str", "x"]]]
+    pats = ["*", "*ion", "*Velocity", "A*", "V*", "P*", "R*", "*o*", "Position", "Velocity", "Acceleration", "Rotation",
+            "AngularVelocity", "Nope", "*Nope"]
+    for var, ps in (("ObjectData", pats), ("PSBlock", ["*", "P*", "PSys", "PData", "PD*", "Nope"]), ("TextureEntry", ["*", "Glow"]),
+                    ("ExtraParams", ["*"])):
+        for pat in ps:
+            sel = ["ObjectUpdate", "ObjectData", var, pat]
+            yield ["leaf", sel, None, None]
+            for op in OPS:
+                for v in vals:
+                    yield ["leaf", sel, op, v]
+    # the same leaves under a connective (the result of a leaf feeds Not/And/Or)
+    sel = ["ObjectUpdate", "ObjectData", "ObjectData", "*"]
+    z = ["leaf", sel, "==", t3(0, 0, 0)]
+    yield ["not", z]
+    yield ["and", z, ["leaf", ["ObjectUpdate", "*", "ObjectData", "*ion"], "<", t3(90, 43, 27)]]
+    yield ["or", ["leaf", ["Nope"], None, None], z]
+
+
 def gen_filter_cases(ctx):
     """yields (kind, ast, entry spec)"""
     for f, e in FIXED_CASES:
         yield "fixed", f, e
+    for f in subfield_family():
+        yield "subfield", f, {"type": "FIXTURE"}
     for f in all_trees(EXH_LEAVES, ctx.pick(2, 2)):
         yield "exh", f, EXH_ENTRY
     rng = ctx.rng
